@@ -106,16 +106,21 @@ PlanMisc ==
 \* (two steps, so that "no filter", "flate" and "predictor" are equally likely in simulation)
 PlanFilter ==
     /\ PlanStep("filter")
-    /\ \E sfilter \in {"none", "flate", "pred"} :
+    /\ \E sfilter \in {"none", "flate", "pred", "other"} :
           /\ (plan.k.xref \in {"table1", "tableN"} /\ plan.k.hybrid = {} => sfilter = "none")
           /\ plan' = [k |-> plan.k @@ [sfilter |-> sfilter]]
     /\ PlanNext("fparams") /\ UNCHANGED <<out, offs, outer, moffs>>
 
 PlanFilterParams ==
     /\ PlanStep("fparams")
-    /\ \E pngft \in 0..6, zblock \in {7, 65535}, crow \in {1, 5} :
-          /\ (plan.k.sfilter # "pred" => pngft = 0 /\ crow = 1) /\ (plan.k.sfilter = "none" => zblock = 7)      \* unused knobs fixed
-          /\ LET k == plan.k @@ [pngft |-> pngft, zblock |-> zblock, crow |-> crow]
+    /\ \E pngft \in 0..6, zblock \in {7, 65535}, crow \in {1, 5}, sfx \in OtherFilters \cup {""},
+          hexstyle \in {"upper", "lower", "ws", "odd", "noeod"}, rlseg \in {1, 2, 3, 128} :
+          /\ (plan.k.sfilter \notin {"pred", "other"} => pngft = 0 /\ crow = 1) /\ (plan.k.sfilter = "none" => zblock = 7)      \* unused knobs fixed
+          /\ (plan.k.sfilter = "other") = (sfx # "")
+          /\ (sfx \notin {"a85pred", "lzwpred", "sub1", "sub2", "sub4", "sub16"} /\ plan.k.sfilter = "other" => pngft = 0)
+          /\ (sfx \notin {"ahx", "ahxfl", "a85", "rl"} => hexstyle = "upper") /\ (sfx # "rl" => rlseg = 3)
+          /\ (sfx = "a85" => hexstyle \in {"upper", "lower"}) /\ (sfx = "rl" => hexstyle \in {"upper", "noeod"})
+          /\ LET k == [sfx |-> sfx, hexstyle |-> hexstyle, rlseg |-> rlseg] @@ plan.k @@ [pngft |-> pngft, zblock |-> zblock, crow |-> crow]
              IN plan' = InitPlan(TheDoc, k) /\ todo' = FilePlan(TheDoc, k)
     /\ UNCHANGED <<out, offs, outer, moffs>>
 
@@ -278,7 +283,7 @@ PredictionJson(j) ==
 
 EmitInv ==
     (Emit /\ Done) => PrintT(<<"REPLAY", ToJson([doc |-> di, bytes |-> out, xref |-> K.xref, w |-> K.w, order |-> K.order,
-                                                  junk |-> K.junk, bin |-> K.bin, sfilter |-> K.sfilter, pngft |-> K.pngft, ghost |-> K.ghost, selfgap |-> K.selfgap, nrevs |-> Len(Doc.revs), cuts |-> plan.cuts,
+                                                  junk |-> K.junk, bin |-> K.bin, sfilter |-> K.sfilter, sfx |-> K.sfx, pngft |-> K.pngft, ghost |-> K.ghost, selfgap |-> K.selfgap, nrevs |-> Len(Doc.revs), cuts |-> plan.cuts,
                                                   ncomp |-> IF CompRevs # {} THEN Cardinality(ContainerNums) ELSE 0,
                                                   redefined |-> Cardinality(Redefined(Doc.revs))]
                                                  @@ (IF Beyond = "off" THEN <<>>
